@@ -1,0 +1,77 @@
+//go:build verif
+
+// Command verifhook is a verification-only entry point (build tag "verif").
+// It reads one JSON request per line on stdin and writes one JSON response per line on stdout.
+// It is invisible to ordinary builds and tests.
+package main
+
+import (
+	"bufio"
+	"encoding/json"
+	"fmt"
+	"os"
+)
+
+type request map[string]any
+
+type response map[string]any
+
+type handler func(req request) response
+
+var handlers = map[string]handler{}
+
+func register(op string, h handler) { handlers[op] = h }
+
+func str(req request, k string) string {
+	if v, ok := req[k].(string); ok {
+		return v
+	}
+	return ""
+}
+
+func num(req request, k string, def int) int {
+	if v, ok := req[k].(float64); ok {
+		return int(v)
+	}
+	return def
+}
+
+func safely(h handler, req request) (res response) {
+	defer func() {
+		if r := recover(); r != nil {
+			res = response{"outcome": "panic", "panic": fmt.Sprint(r)}
+		}
+	}()
+	return h(req)
+}
+
+func main() {
+	in := bufio.NewReaderSize(os.Stdin, 1<<20)
+	out := bufio.NewWriter(os.Stdout)
+	defer out.Flush()
+	enc := json.NewEncoder(out)
+	enc.SetEscapeHTML(false)
+	dec := json.NewDecoder(in)
+	for {
+		var req request
+		if err := dec.Decode(&req); err != nil {
+			return
+		}
+		op := str(req, "op")
+		h, ok := handlers[op]
+		var res response
+		if !ok {
+			res = response{"outcome": "unknown-op", "op": op}
+		} else {
+			res = safely(h, req)
+		}
+		if id, ok := req["id"]; ok {
+			res["id"] = id
+		}
+		if err := enc.Encode(res); err != nil {
+			fmt.Fprintln(os.Stderr, "verifhook: encode:", err)
+			os.Exit(3)
+		}
+		out.Flush()
+	}
+}
